@@ -36,6 +36,7 @@ type E2ECase struct {
 	Caps         []string          `json:"capitalizations,omitempty"`
 	Docs         []E2EDoc          `json:"docs"`
 	ExpectGen    string            `json:"expect_generator,omitempty"` // "" | "error" | "compiles"
+	GenTimeoutS  int               `json:"generator_timeout_s,omitempty"` // default 60
 }
 
 type E2EVerdict struct {
@@ -176,7 +177,11 @@ func runE2E(opts *RunOpts, c *E2ECase) (*E2EResult, error) {
 		job["capitalizations"] = c.Caps
 	}
 	jb, _ := json.Marshal(job)
-	ctx, cancel := context.WithTimeout(context.Background(), 60*time.Second)
+	genTimeout := 60 * time.Second
+	if c.GenTimeoutS > 0 {
+		genTimeout = time.Duration(c.GenTimeoutS) * time.Second
+	}
+	ctx, cancel := context.WithTimeout(context.Background(), genTimeout)
 	defer cancel()
 	gcmd := exec.CommandContext(ctx, filepath.Join(opts.Verif, "bin", "e2egen"))
 	gcmd.Stdin = bytes.NewReader(jb)
@@ -189,8 +194,13 @@ func runE2E(opts *RunOpts, c *E2ECase) (*E2EResult, error) {
 		Error    string            `json:"error"`
 		Panic    string            `json:"panic"`
 	}
+	if ctx.Err() == context.DeadlineExceeded {
+		res.GenPanic = fmt.Sprintf("the generator did not terminate within %v", genTimeout)
+		res.Seconds = time.Since(start).Seconds()
+		return res, nil
+	}
 	if jerr := json.Unmarshal(gout.Bytes(), &gr); jerr != nil {
-		res.GenPanic = fmt.Sprintf("generator process failed: %v %s %s", runErr, gerr.String(), gout.String())
+		res.GenPanic = fmt.Sprintf("generator process failed: %v %s %s", runErr, trunc(gerr.String(), 400), trunc(gout.String(), 200))
 		res.Seconds = time.Since(start).Seconds()
 		return res, nil
 	}
@@ -266,6 +276,9 @@ func runE2E(opts *RunOpts, c *E2ECase) (*E2EResult, error) {
 func (c *E2ECase) violations(r *E2EResult) []string {
 	var out []string
 	if r.GenPanic != "" {
+		if strings.HasPrefix(r.GenPanic, "the generator did not terminate") {
+			return []string{r.GenPanic}
+		}
 		return []string{"generator panicked: " + trunc(r.GenPanic, 300)}
 	}
 	if c.ExpectGen == "error" {
